@@ -84,7 +84,8 @@ def gen_case(rng, params, idx):
             slot = rng.choice([p for p in d["pos"] if not p.get("opt")] + [k for k in d["kw"] if k["req"]])
             slot["t"] = ["D", slot["t"], "never"]
             methods.append(d)
-    return {"methods": methods, "is_method": is_method, "valseed": rng.randrange(1 << 30), "kw_names": kwn}
+    return {"methods": methods, "is_method": is_method, "valseed": rng.randrange(1 << 30), "kw_names": kwn,
+            "predecessor": rng.choice([m["mid"] for m in methods if not m.get("decoy")]) if rng.random() < 0.3 else None}
 
 
 class Ret:
@@ -134,10 +135,21 @@ def check_case(spec, res):
             # the mere mention of recurse sends the method through the source rewriter: defaults, keyword-only
             # defaults and everything else must survive that
             body = ["__unused = recurse"] + body
+        pred = None
+        if spec.get("predecessor") == m["mid"] and m["pos"]:
+            # history: an earlier definition with the *same signature* but other parameter names is registered
+            # first, replaced by this one, and then unregistered - only this one's names count afterwards
+            pm = dict(m, pos=[dict(p_, n=p_["n"] + "_old") for p_ in m["pos"]])
+            pred, pf = make_method(pm, env, vf, ["return 'predecessor'"], tag="c03", shared_ns=ns)
+            files.append(pf)
+            o.register(pred)
+            res.count("methods_replacing_a_renamed_predecessor")
         fn, f = make_method(m, env, vf, body, tag="c03", shared_ns=ns)
         files.append(f)
         fns[m["mid"]] = (fn, f)
         o.register(fn)
+        if pred is not None:
+            o.unregister(pred)
     try:
         o.compile()
     except TypeError as e:
@@ -162,6 +174,11 @@ def check_case(spec, res):
     sigkey = [[[T.tname(p["t"]), p.get("opt", False), p.get("po", False)] for p in m["pos"]] +
               [[k["n"], T.tname(k["t"]), k["req"]] for k in m["kw"]] for m in spec["methods"]]
     maxpos = max(len(m["pos"]) for m in spec["methods"])
+    real = [m for m in spec["methods"]]
+    minreq = min(sum(1 for p in m["pos"] if not p.get("opt")) for m in real)
+    by_keyword_ok = (maxpos - minreq <= 1 and not any(p.get("po") for m in real for p in m["pos"])
+                     and all(p["n"] == f"p{i}" for m in real for i, p in enumerate(m["pos"]))
+                     and not ({p["n"] for m in real for p in m["pos"]} & {k["n"] for m in real for k in m["kw"]}))
     for npos_given in range(0, 4):
         K1, K2 = spec.get("kw_names", ["k1", "k2"])
         for kwset in ((), (K1,), (K2,), (K1, K2)):
@@ -222,6 +239,24 @@ def check_case(spec, res):
                     res.count("unique_applicable_ran")
                     res.nontrivial([sigkey, npos_given, sorted(kargs)])
                     loc = entries[0][1]
+                    if by_keyword_ok and npos_given:
+                        # documented: when every method names its positional parameters the same (and the numbers of
+                        # required / accepted positionals differ by at most one) they may be given by keyword
+                        names_ = [p["n"] for p in m["pos"][:npos_given]]
+                        saved_made, saved_entries = dict(made), list(vf.entries)
+                        vf.clear()
+                        out2 = outcome(lambda: target(**dict(zip(names_, pargs)), **kargs), vf, names)
+                        res.count("positionals_given_by_keyword")
+                        e2 = vf.entries
+                        if not e2 or e2[0][0] != m["mid"] or any(e2[0][1][n_] is not a for n_, a in zip(names_, pargs)):
+                            res.violation("positional-by-keyword-differs", [out2[0]], spec,
+                                          observed={"call_shape": shape, "by_keyword": names_, "outcome": [str(x) for x in out2[:2]],
+                                                    "entered": [e[0] for e in e2]},
+                                          acceptable="the same method receives the same objects")
+                        vf.clear()
+                        vf.entries.extend(saved_entries)
+                        made.clear()
+                        made.update(saved_made)
                     for i, p in enumerate(m["pos"]):
                         got = loc[p["n"]]
                         if i < npos_given:
